@@ -11,7 +11,7 @@ from hv.ref import raw
 ID = "C15"
 RULE = ("G-sim traces (1-3 host threads, 1-4 streams, kernels that start before their launch call ends (negative raw delay), "
         "non-launch runtime calls carrying ids, driver-API launches, launches without kernel, dropped launches/kernels, 1-3 ranks, "
-        "tight equal-timestamp mode) loaded through TraceAnalysis; optional history of 1-3 other read-only analyses (memory bandwidth, queue length, breakdowns, ...) on the same object first; get_cuda_kernel_launch_stats for every rank subset, with and "
+        "tight equal-timestamp mode) loaded through TraceAnalysis with and without include_last_profiler_step; optional history of 1-3 other read-only analyses (memory bandwidth, queue length, breakdowns, ...) on the same object first; get_cuda_kernel_launch_stats for every rank subset, with and "
         "without memory events; oracle = multiset of (correlation, cpu_duration, gpu_duration, max(0, k.ts - l.ts - l.dur)) over "
         "linked pairs whose host call is cudaLaunchKernel / cudaLaunchKernelExC (+ cudaMemcpyAsync / cudaMemsetAsync when requested). "
         "Non-trivial: >= 3 pairs, >= 1 clipped (negative raw) delay and >= 1 positive delay. Distinct = hash of files + configuration.")
@@ -20,9 +20,9 @@ ASSUMPTIONS = ["well-formed regime (hv/wf.py)", "launch names as documented in t
                "pairs are those surviving the documented trimming of the trailing profiler step (hv/ref/load.py)"]
 PLAN = {"quick": {"shards": 16, "cases": 960, "timeout": 600}, "thorough": {"shards": 16, "cases": 10000, "timeout": 3000}}
 FLOORS = {"quick": {"distinct_nontrivial": 120, "pairs_judged": 2500, "clipped_delays": 600, "positive_delays": 800, "memory_pairs": 500,
-                    "calls_without_memory": 150, "multi_rank_calls": 100, "calls_after_history": 150},
+                    "calls_without_memory": 150, "multi_rank_calls": 100, "calls_after_history": 150, "loads_including_last_step": 100},
           "thorough": {"distinct_nontrivial": 2500, "pairs_judged": 50000, "clipped_delays": 12000, "positive_delays": 16000,
-                       "memory_pairs": 10000, "calls_without_memory": 3000, "multi_rank_calls": 2000, "calls_after_history": 3000}}
+                       "memory_pairs": 10000, "calls_without_memory": 3000, "multi_rank_calls": 2000, "calls_after_history": 3000, "loads_including_last_step": 2000}}
 KLAUNCH = {"cudaLaunchKernel", "cudaLaunchKernelExC", "runFunction - job_prep_and_submit_for_execution"}
 MLAUNCH = {"cudaMemcpyAsync", "cudaMemsetAsync"}
 PRE_CALLS = ["get_memory_bw_time_series", "get_queue_length_time_series", "get_memory_bw_summary", "get_temporal_breakdown",
@@ -58,7 +58,8 @@ def gen_case(rnd, tier: str, i: Any) -> Dict[str, Any]:
     ranks = sorted(rnd.sample(range(n_ranks), rnd.randint(1, n_ranks)))
     # multi-step histories: other read-only analyses called on the same TraceAnalysis object before the statistics
     pre = rnd.sample(PRE_CALLS, rnd.choice([0, 0, 1, 2, 3]))
-    return {"files": files, "cfg": {"ranks": ranks, "include_memory_events": rnd.random() < 0.6, "pre_calls": pre}}
+    return {"files": files, "cfg": {"ranks": ranks, "include_memory_events": rnd.random() < 0.6, "pre_calls": pre,
+                                    "inc_last": rnd.random() < 0.4}}
 
 
 def fixed_cases(tier: str):
@@ -77,11 +78,14 @@ def run_case(case: Dict[str, Any], ctx: Any) -> core.CaseResult:
             res.discarded, res.discard_reason = True, "not well-formed: " + why.split(":")[0][:50]
             return res
         models[tr["distributedInfo"]["rank"]] = m
-    ld = refload.loaded(models, False)
+    inc_last = bool(cfg.get("inc_last"))
+    ld = refload.loaded(models, inc_last)
+    if inc_last:
+        res.counters["loads_including_last_step"] += 1
     d = ctx.scratch.new("c15")
     try:
         core.write_trace_files(d, case["files"])
-        ok, ta = drv.guard(res, "TraceAnalysis(load)", drv.new_analysis, d)
+        ok, ta = drv.guard(res, "TraceAnalysis(load)", drv.new_analysis, d, **({"include_last_profiler_step": True} if inc_last else {}))
         if not ok:
             return res
         for name in cfg.get("pre_calls", []):
